@@ -66,6 +66,8 @@ func main() {
 		authTables(*repo)
 	case "SqlTemplates":
 		sqlTemplates(*repo)
+	case "LockTable":
+		lockTable(*repo)
 	case "TypingTables":
 		typingTables(*repo)
 	case "Consts":
